@@ -996,6 +996,8 @@ class UnitQuaternion(Quaternion):
                 if norm:
                     self.data = [base.unit(x) for x in s]
                 else:
+                    if check and not all(base.isunit(x) for x in s):
+                        raise ValueError('quaternion is not of unit length (norm=False)')
                     self.data = [x for x in s]
 
             elif isinstance(s, SO3):
@@ -1014,6 +1016,8 @@ class UnitQuaternion(Quaternion):
             q = np.r_[s, base.getvector(v)]
             if norm:
                 q = base.unit(q)
+            elif check and not base.isunit(q):
+                raise ValueError('quaternion is not of unit length (norm=False)')
             self.data = [q]
         
         else:
